@@ -381,6 +381,27 @@ pub fn format_blame_line_number(
     (format.prefix.as_str(), result, format.suffix.as_str())
 }
 
+/// Exit with an error message if one of these option values cannot be used.
+pub fn check_blame_options(
+    palette: &[String],
+    blame_format: &str,
+    timestamp_output_format: Option<&str>,
+    git_config: Option<&crate::git_config::GitConfig>,
+) {
+    for color in palette {
+        color::parse_color(color, true, git_config);
+    }
+    format::parse_line_number_format(blame_format, &BLAME_PLACEHOLDER_REGEX, false);
+    if let Some(time_format) = timestamp_output_format {
+        use chrono::format::{Item, StrftimeItems};
+        if StrftimeItems::new(time_format).any(|item| matches!(item, Item::Error)) {
+            fatal(format!(
+                "Invalid value for blame-timestamp-output-format: {time_format}"
+            ));
+        }
+    }
+}
+
 pub fn parse_blame_line_numbers(arg: &str) -> BlameLineNumbers {
     if arg == "none" {
         return BlameLineNumbers::On(crate::format::FormatStringSimple::only_string("│"));
